@@ -86,3 +86,9 @@ let out_planar (o : (((float * float) * nat) * float) option) =
   match o with
   | None -> emit "ok inf inf"
   | Some (((d, a), k), fr) -> emit (vec [d; a; float_of_int (int_of_nat k); fr])
+
+(* sphere grid (SphereGrid.v): node positions and Depth, connectivity, merge diagnostics *)
+let out_sphere_nodes (l : ((((float * float) * float)) * float) list) =
+  emit (String.concat " " ("ok" :: List.concat_map (fun (((x, y), z), d) -> [hx x; hx y; hx z; hx d]) l))
+let out_nat_lists (l : nat list list) =
+  emit (String.concat " " ("ok" :: List.map (fun i -> string_of_int (int_of_nat i)) (List.concat l)))
